@@ -117,6 +117,12 @@ claim("C16", "model_checking",
       "Behavioural equality observed on the listed presentations, not all proofs.",
       "DESIGN.md §5 C16")
 
+claim("C18", "model_checking",
+      "deviation-bounded exhaustive exploration of parallel-region task orders / join orders / reduction shapes / thread counts and hash-map iteration orders of the real code under controllable rayon and hashbrown shims, plus an exhaustive preemption-bounded controlled-scheduler exploration (E6) of concurrent calls through the process-wide label cache",
+      "(a) [patch.crates-io] replaces rayon and hashbrown for the whole dependency graph by shims whose task order, join order, reduction shape, reported thread count and map iteration order an explorer chooses: bound 0, thread sweep {1,2,3,4,5,8,16,17,32}, whole-run policies, and bound 1 (every region / site of the 2^5 circuit x every policy; class representatives + stride on 2^9; thorough: full bound 1 on 2^9, bound 2 on 2^5, representatives on 2^10 / 2^12) over compile, prove, verify and compress: Prover / Verifier / proof / PI / compressed bytes must be identical to the canonical schedule; the shim build's reference bytes equal the real build's. (b) fresh processes (OS-random hash seeds, RAYON_NUM_THREADS), (c) real pools of 1..=17 threads, (d) alloc-only build (separate workspace without std/rayon) give identical bytes; (e) E6: a controlled scheduler (one runnable thread at a time, scheduling points at operation boundaries and at the label-cache lock region hook) explores every schedule of 2-3 threads x 1-2 prove / verify / compile calls up to 2 (thorough 3) preemptions: every call returns what it returns sequentially; (f) 16 free-running threads on shared keys; (g) the 2^5 proof equals the reference prover M3.",
+      "Parallel tasks are atomic for the shim explorer (safe Rust closures, no shared mutable state on these paths - the explorer re-scans the sources for static/Cell/Atomic/Mutex/unsafe and records the set); (b),(c),(f) observe OS schedules and are conformance passes, not the deciding step. Policies are a finite alphabet (identity, reverse, rotate, odd-before-even, last-first, ...), which orders every pair of tasks / entries both ways.",
+      "DESIGN.md §5 C18, E5, E5b, E6")
+
 ALL = [f"C{i:02d}" for i in range(1, 21)]
 
 def main():
@@ -143,7 +149,7 @@ def main():
     na = [{"property_id": i, "reason": NOT_YET.get(i, "check not built yet in this round (planned in DESIGN.md §5); the technique applies, nothing is claimed until the check exists")} for i in ALL if i not in CLAIMED]
     m = {
         "version": 1,
-        "setup_cmd": "cd /verif/harness && CARGO_NET_OFFLINE=true cargo build --offline --profile verif",
+        "setup_cmd": "cd /verif/harness && CARGO_NET_OFFLINE=true cargo build --offline --profile verif && cd /verif/harness-sched && CARGO_NET_OFFLINE=true cargo build --offline --profile verif && cd /verif/harness-nostd && CARGO_NET_OFFLINE=true cargo build --offline --profile verif",
         "hooks": {
             "guard": "cargo feature `verif` of dusk-plonk (off by default)",
             "enable": "the harness depends on dusk-plonk = { path = \"/repo\", features = [\"verif\", \"legacy-proving\"] }; every check rebuilds it incrementally from /repo's working tree",
@@ -154,6 +160,10 @@ def main():
         "engines": [
             {"name": "vp", "path": "/verif/harness", "serves_properties": sorted(CLAIMED.keys()),
              "kind_free_text": "Rust harness: bounded exhaustive enumerators (operation sequences, raw rows, witness deviations, byte faults) executed on the real dusk-plonk code and compared case by case with independent reference models M1-M5"},
+            {"name": "vp-sched", "path": "/verif/harness-sched", "serves_properties": ["C18"],
+             "kind_free_text": "second cargo workspace: [patch.crates-io] rayon + hashbrown shims (virtual scheduler / controllable iteration order) and a deviation-bounded schedule explorer over the real dusk-plonk code"},
+            {"name": "vp-alloc", "path": "/verif/harness-nostd", "serves_properties": ["C18"],
+             "kind_free_text": "third cargo workspace: dusk-plonk built without std (alloc-only, serial code paths); emits key / proof hashes compared with the std build"},
         ],
         "checks": checks,
         "not_applicable": na,
